@@ -4,6 +4,7 @@ pub mod c02;
 pub mod c03;
 pub mod c04;
 pub mod c05;
+pub mod c06;
 pub mod c07;
 pub mod c08;
 pub mod c09;
@@ -23,6 +24,7 @@ pub fn run(ctx: &Ctx) -> bool {
         "C03" => c03::run(ctx),
         "C04" => c04::run(ctx),
         "C05" => c05::run(ctx),
+        "C06" => c06::run(ctx),
         "C07" => c07::run(ctx),
         "C08" => c08::run(ctx),
         "C09" => c09::run(ctx),
@@ -46,6 +48,7 @@ pub fn replay(prop: &str, check: &str, payload: &serde_json::Value) -> Option<Ve
         "C03" => c03::replay(case),
         "C04" => c04::replay(case),
         "C05" => c05::replay(case),
+        "C06" => c06::replay(case),
         "C07" => c07::replay(case),
         "C08" => c08::replay(case),
         "C09" => c09::replay(case),
